@@ -27,6 +27,8 @@ import (
 	"testing/synctest"
 	"time"
 
+	"github.com/modelcontextprotocol/go-sdk/internal/jsonrpc2"
+	"github.com/modelcontextprotocol/go-sdk/jsonrpc"
 	"github.com/modelcontextprotocol/go-sdk/mcp"
 	"github.com/modelcontextprotocol/go-sdk/verif/memio"
 	"github.com/modelcontextprotocol/go-sdk/verif/vt"
@@ -66,15 +68,39 @@ const updatedMethod = "notifications/resources/updated"
 const legacyVersion = "2025-06-18"
 const modernVersion = "2026-07-28"
 
+// dropNotesTransport refuses, with a per-message rejection, every notification written to the connection.
+type dropNotesTransport struct{ inner mcp.Transport }
+
+func (t *dropNotesTransport) Connect(ctx context.Context) (mcp.Connection, error) {
+	c, err := t.inner.Connect(ctx)
+	if err != nil {
+		return nil, err
+	}
+	return &dropNotesConn{c}, nil
+}
+
+type dropNotesConn struct{ mcp.Connection }
+
+func (c *dropNotesConn) Write(ctx context.Context, msg jsonrpc.Message) error {
+	if r, ok := msg.(*jsonrpc.Request); ok && !r.IsCall() {
+		return fmt.Errorf("%w: this peer takes no notifications", jsonrpc2.ErrRejected)
+	}
+	return c.Connection.Write(ctx, msg)
+}
+
 // ---- script -------------------------------------------------------------------
 
 type Sess struct {
 	Legacy bool `json:"legacy,omitempty"`
 	// SlowConnect: the client connects 15 ms (virtual) after the server side has bound the session, so a
 	// pending change burst is fanned out while the session exists but has not introduced itself yet.
-	SlowConnect bool    `json:"slow_connect,omitempty"`
-	H           [3]bool `json:"h"`                 // list-changed handlers set in ClientOptions: tools, prompts, resources
-	Initial     bool    `json:"initial,omitempty"` // connected before the timeline starts
+	SlowConnect bool `json:"slow_connect,omitempty"`
+	// DropNotes (legacy sessions): the server-side transport of this session refuses every notification the
+	// server writes to it (a per-message rejection, the connection stays up). Nothing is expected to reach
+	// this session; the point is that the other sessions still get theirs.
+	DropNotes bool    `json:"drop_notes,omitempty"`
+	H         [3]bool `json:"h"`                 // list-changed handlers set in ClientOptions: tools, prompts, resources
+	Initial   bool    `json:"initial,omitempty"` // connected before the timeline starts
 }
 
 type Event struct {
@@ -135,6 +161,7 @@ func gen(rt *rapid.T) Script {
 		var x Sess
 		x.Legacy = rapid.IntRange(0, 9).Draw(rt, "legacy") < 4
 		x.SlowConnect = rapid.IntRange(0, 3).Draw(rt, "slow_connect") == 0
+		x.DropNotes = x.Legacy && rapid.IntRange(0, 3).Draw(rt, "drop_notes") == 0
 		switch m := rapid.IntRange(0, 9).Draw(rt, "handlers"); {
 		case m < 4:
 			x.H = [3]bool{true, true, true}
@@ -620,6 +647,9 @@ func runInBubble(s Script) (res vt.Result) {
 		} else {
 			st, ct = mcp.NewInMemoryTransports()
 		}
+		if sl.spec.DropNotes {
+			st = &dropNotesTransport{inner: st}
+		}
 		var err error
 		clientConnect := func() {
 			var o *mcp.ClientSessionOptions
@@ -646,6 +676,8 @@ func runInBubble(s Script) (res vt.Result) {
 				switch {
 				case capOf(nk) == "off":
 					sl.entitled[nk] = 0
+				case sl.spec.DropNotes:
+					sl.entitled[nk] = -1 // its transport refuses them: nothing is expected of it
 				case sl.spec.Legacy:
 					sl.entitled[nk] = 1
 				case !sl.spec.H[nk]:
@@ -858,7 +890,9 @@ func runInBubble(s Script) (res vt.Result) {
 				res.Class("subscribe_error")
 				break
 			}
-			if sl.spec.Legacy {
+			if sl.spec.DropNotes {
+				sl.subs[uri] = -1 // subscribed, but its transport refuses the notifications
+			} else if sl.spec.Legacy {
 				sl.subs[uri] = 1
 			} else if _, dup := sl.subs[uri]; !dup {
 				// 2026-07-28: Subscribe opens a dedicated subscriptions/listen stream for the uri and does
